@@ -7,6 +7,8 @@ import CharsetProof.Model.SortLarge
 import CharsetProof.Model.DecodeHelper
 import CharsetProof.Model.Cli
 import CharsetProof.Model.Cd
+import CharsetProof.Model.Md
+import Std.Data.HashMap
 namespace Charset.Driver
 open Charset
 
@@ -371,6 +373,27 @@ def handle (line : String) : String :=
         | _ => none
       (match r with | some r => s!"ok {r.bits32}" | none => "bad-op")
     | _, _ => "bad-op"
+  | ["mess", thr, th, infos, susp] =>
+    -- md::mess_ratio on a text; the Unicode side (per-character records, suspicious range pairs) is supplied
+    let parseInfo (p : String) : Option Md.CharInfo :=
+      match (p.splitOn ":").mapM (·.toNat?) with
+      | some [cp, fl, r, b] => some ⟨cp, fl, r, b⟩
+      | _ => none
+    let parsePair (p : String) : Option (Nat × Nat) :=
+      match (p.splitOn ":").mapM (·.toNat?) with
+      | some [a, b] => some (a, b)
+      | _ => none
+    match f32OfBits thr, textOfHex th,
+          (if infos = "-" then some [] else (infos.splitOn ",").mapM parseInfo),
+          (if susp = "-" then some [] else (susp.splitOn ",").mapM parsePair) with
+    | some thr, some t, some infos, some pairs =>
+      let im : Std.HashMap Nat Md.CharInfo := infos.foldl (fun m i => m.insert i.cp i) {}
+      let sm : Std.HashMap (Nat × Nat) Unit := pairs.foldl (fun m p => m.insert p ()) {}
+      if t.all (fun c => im.contains c) && im.contains 10 then
+        let env : Md.MdEnv := { info := fun c => im.getD c ⟨c, 0, 0, c⟩, susp := fun a b => sm.contains (a, b) }
+        s!"ok {(Md.messRatio env t thr).bits32}"
+      else "bad-op"
+    | _, _, _, _ => "bad-op"
   | ["f32ofnat", n] => (match n.toNat? with | some n => s!"ok {(Fl.ofNat fmt32 n).bits32}" | none => "bad-op")
   | _ => "bad-op"
 
